@@ -7,11 +7,14 @@ package smf
 
 // ---------------------------------------------------------------- meta events (C15)
 
+// vlqAt(m, p, n): the bytes of m from index p are the variable-length encoding of n (quantifier-free, 1..5 bytes)
+//@ macro vlqAt(m, p, n) = m[p] == vlqByte(n, 0) && (vlqLen(n) >= 2 ==> m[p+1] == vlqByte(n, 1)) && (vlqLen(n) >= 3 ==> m[p+2] == vlqByte(n, 2)) && (vlqLen(n) >= 4 ==> m[p+3] == vlqByte(n, 3)) && (vlqLen(n) >= 5 ==> m[p+4] == vlqByte(n, 4))
+
 //@ func _MetaMessage
 //@ requires len(data) < 4294967296
 //@ ensures [P:C15] fresh(result) && len(result) == 2 + vlqLen(uint32(len(data))) + len(data)
 //@ ensures [P:C15] result[0] == 0xFF && result[1] == typ
-//@ ensures [P:C15] forall i int :: 0 <= i && i < vlqLen(uint32(len(data))) ==> result[2 + i] == vlqByte(uint32(len(data)), i)
+//@ ensures [P:C15] vlqAt(result, 2, uint32(len(data)))
 //@ ensures [P:C15] forall i int :: 0 <= i && i < len(data) ==> result[2 + vlqLen(uint32(len(data))) + i] == data[i]
 
 // ---------------------------------------------------------------- file-level classification (C08)
@@ -142,7 +145,7 @@ package smf
 //@ func MetaSequencerData
 //@ requires len(data) < 4294967296
 //@ ensures [P:C15] fresh(result) && len(result) == 2 + vlqLen(uint32(len(data))) + len(data) && result[0] == 0xFF && result[1] == 0x7F
-//@ ensures [P:C15] forall i int :: 0 <= i && i < vlqLen(uint32(len(data))) ==> result[2 + i] == vlqByte(uint32(len(data)), i)
+//@ ensures [P:C15] vlqAt(result, 2, uint32(len(data)))
 //@ ensures [P:C15] forall i int :: 0 <= i && i < len(data) ==> result[2 + vlqLen(uint32(len(data))) + i] == data[i]
 
 //@ func MetaUndefined
@@ -150,7 +153,7 @@ package smf
 //@ ensures [P:C15] fresh(result) && len(result) == 2 + vlqLen(uint32(len(data))) + len(data) && result[0] == 0xFF && result[1] == typ
 
 // ---- texts: FF type vlq(len) bytes. The accessor parses the VLQ length (decoder form: c length bytes).
-//@ macro textAt(m, c, text) = (vlqEnds5(arr(m), 2, c) && len(m) >= 2 + c + int(vlqDec(arr(m), 2, c))) ==> (uint32(len(*text)) == vlqDec(arr(m), 2, c) && forall i int :: 0 <= i && i < len(*text) ==> (*text)[i] == m[2 + c + i])
+//@ macro textAt(m, c, text) = (vlqEnds5(arr(m), 2, c) && len(m) >= 2 + c + int(vlqDec(arr(m), 2, c))) ==> (len(*text) == int(vlqDec(arr(m), 2, c)) && forall i int :: 0 <= i && i < len(*text) ==> (*text)[i] == m[2 + c + i])
 
 //@ func (Message).text
 //@ requires len(m) >= 2
@@ -161,7 +164,7 @@ package smf
 //@ func MetaLyric
 //@ requires len(text) < 268435456
 //@ ensures [P:C15] fresh(result) && len(result) == 2 + vlqLen(uint32(len(text))) + len(text) && result[0] == 0xFF && result[1] == 0x05
-//@ ensures [P:C15] forall i int :: 0 <= i && i < vlqLen(uint32(len(text))) ==> result[2 + i] == vlqByte(uint32(len(text)), i)
+//@ ensures [P:C15] vlqAt(result, 2, uint32(len(text)))
 //@ ensures [P:C15] forall i int :: 0 <= i && i < len(text) ==> result[2 + vlqLen(uint32(len(text))) + i] == text[i]
 
 //@ func (Message).GetMetaLyric
@@ -174,7 +177,7 @@ package smf
 //@ func MetaCopyright
 //@ requires len(text) < 268435456
 //@ ensures [P:C15] fresh(result) && len(result) == 2 + vlqLen(uint32(len(text))) + len(text) && result[0] == 0xFF && result[1] == 0x02
-//@ ensures [P:C15] forall i int :: 0 <= i && i < vlqLen(uint32(len(text))) ==> result[2 + i] == vlqByte(uint32(len(text)), i)
+//@ ensures [P:C15] vlqAt(result, 2, uint32(len(text)))
 //@ ensures [P:C15] forall i int :: 0 <= i && i < len(text) ==> result[2 + vlqLen(uint32(len(text))) + i] == text[i]
 
 //@ func (Message).GetMetaCopyright
@@ -187,7 +190,7 @@ package smf
 //@ func MetaCuepoint
 //@ requires len(text) < 268435456
 //@ ensures [P:C15] fresh(result) && len(result) == 2 + vlqLen(uint32(len(text))) + len(text) && result[0] == 0xFF && result[1] == 0x07
-//@ ensures [P:C15] forall i int :: 0 <= i && i < vlqLen(uint32(len(text))) ==> result[2 + i] == vlqByte(uint32(len(text)), i)
+//@ ensures [P:C15] vlqAt(result, 2, uint32(len(text)))
 //@ ensures [P:C15] forall i int :: 0 <= i && i < len(text) ==> result[2 + vlqLen(uint32(len(text))) + i] == text[i]
 
 //@ func (Message).GetMetaCuepoint
@@ -200,7 +203,7 @@ package smf
 //@ func MetaDevice
 //@ requires len(text) < 268435456
 //@ ensures [P:C15] fresh(result) && len(result) == 2 + vlqLen(uint32(len(text))) + len(text) && result[0] == 0xFF && result[1] == 0x09
-//@ ensures [P:C15] forall i int :: 0 <= i && i < vlqLen(uint32(len(text))) ==> result[2 + i] == vlqByte(uint32(len(text)), i)
+//@ ensures [P:C15] vlqAt(result, 2, uint32(len(text)))
 //@ ensures [P:C15] forall i int :: 0 <= i && i < len(text) ==> result[2 + vlqLen(uint32(len(text))) + i] == text[i]
 
 //@ func (Message).GetMetaDevice
@@ -213,7 +216,7 @@ package smf
 //@ func MetaInstrument
 //@ requires len(text) < 268435456
 //@ ensures [P:C15] fresh(result) && len(result) == 2 + vlqLen(uint32(len(text))) + len(text) && result[0] == 0xFF && result[1] == 0x04
-//@ ensures [P:C15] forall i int :: 0 <= i && i < vlqLen(uint32(len(text))) ==> result[2 + i] == vlqByte(uint32(len(text)), i)
+//@ ensures [P:C15] vlqAt(result, 2, uint32(len(text)))
 //@ ensures [P:C15] forall i int :: 0 <= i && i < len(text) ==> result[2 + vlqLen(uint32(len(text))) + i] == text[i]
 
 //@ func (Message).GetMetaInstrument
@@ -226,7 +229,7 @@ package smf
 //@ func MetaMarker
 //@ requires len(text) < 268435456
 //@ ensures [P:C15] fresh(result) && len(result) == 2 + vlqLen(uint32(len(text))) + len(text) && result[0] == 0xFF && result[1] == 0x06
-//@ ensures [P:C15] forall i int :: 0 <= i && i < vlqLen(uint32(len(text))) ==> result[2 + i] == vlqByte(uint32(len(text)), i)
+//@ ensures [P:C15] vlqAt(result, 2, uint32(len(text)))
 //@ ensures [P:C15] forall i int :: 0 <= i && i < len(text) ==> result[2 + vlqLen(uint32(len(text))) + i] == text[i]
 
 //@ func (Message).GetMetaMarker
@@ -239,7 +242,7 @@ package smf
 //@ func MetaProgram
 //@ requires len(text) < 268435456
 //@ ensures [P:C15] fresh(result) && len(result) == 2 + vlqLen(uint32(len(text))) + len(text) && result[0] == 0xFF && result[1] == 0x08
-//@ ensures [P:C15] forall i int :: 0 <= i && i < vlqLen(uint32(len(text))) ==> result[2 + i] == vlqByte(uint32(len(text)), i)
+//@ ensures [P:C15] vlqAt(result, 2, uint32(len(text)))
 //@ ensures [P:C15] forall i int :: 0 <= i && i < len(text) ==> result[2 + vlqLen(uint32(len(text))) + i] == text[i]
 
 //@ func (Message).GetMetaProgramName
@@ -252,7 +255,7 @@ package smf
 //@ func MetaText
 //@ requires len(text) < 268435456
 //@ ensures [P:C15] fresh(result) && len(result) == 2 + vlqLen(uint32(len(text))) + len(text) && result[0] == 0xFF && result[1] == 0x01
-//@ ensures [P:C15] forall i int :: 0 <= i && i < vlqLen(uint32(len(text))) ==> result[2 + i] == vlqByte(uint32(len(text)), i)
+//@ ensures [P:C15] vlqAt(result, 2, uint32(len(text)))
 //@ ensures [P:C15] forall i int :: 0 <= i && i < len(text) ==> result[2 + vlqLen(uint32(len(text))) + i] == text[i]
 
 //@ func (Message).GetMetaText
@@ -265,7 +268,7 @@ package smf
 //@ func MetaTrackSequenceName
 //@ requires len(text) < 268435456
 //@ ensures [P:C15] fresh(result) && len(result) == 2 + vlqLen(uint32(len(text))) + len(text) && result[0] == 0xFF && result[1] == 0x03
-//@ ensures [P:C15] forall i int :: 0 <= i && i < vlqLen(uint32(len(text))) ==> result[2 + i] == vlqByte(uint32(len(text)), i)
+//@ ensures [P:C15] vlqAt(result, 2, uint32(len(text)))
 //@ ensures [P:C15] forall i int :: 0 <= i && i < len(text) ==> result[2 + vlqLen(uint32(len(text))) + i] == text[i]
 
 //@ func (Message).GetMetaTrackName
@@ -274,3 +277,302 @@ package smf
 //@ ensures [P:C15] (len(m) >= 3 && m[0] == 0xFF && m[1] == 0x03) ==> is
 //@ ensures [P:C15] is && text != nil ==> textAt(m, 1, text)
 //@ ensures [P:C15] is && text != nil ==> textAt(m, 2, text)
+
+// ---------------------------------------------------------------- proof harnesses (C15: constructors and accessors are mutually inverse)
+
+// verifLemmaVlq is a lemma call (empty body): a byte string that carries the encoding of n at index p
+// decodes to n there. Its postcondition is an instance of the Layer C lemma vlqRoundTripDec.
+func verifLemmaVlq(d []byte, p int, n uint32) {}
+
+//@ func verifLemmaVlq
+//@ requires 0 <= p
+//@ uses vlqRoundTripDec
+//@ ensures vlqAt(d, p, n) ==> (vlqDec(arr(d), p, vlqLen(n)) == n && vlqEnds5(arr(d), p, vlqLen(n)))
+
+// verifInverseMetaLyricShort: GetMetaLyric(MetaLyric(s)) == s  (len(s) < 128)
+// verifLemmaLen is a lemma call: how many bytes the encoding of a length needs, and that the length
+// survives the conversion to uint32 and back.
+func verifLemmaLen(x int) {}
+
+//@ func verifLemmaLen
+//@ requires 0 <= x && x < 268435456
+//@ ensures (x < 128 ==> vlqLen(uint32(x)) == 1) && (x >= 128 && x < 16384 ==> vlqLen(uint32(x)) == 2) && (x >= 16384 && x < 2097152 ==> vlqLen(uint32(x)) == 3) && (x >= 2097152 ==> vlqLen(uint32(x)) == 4)
+//@ ensures int(uint32(x)) == x
+
+func verifInverseMetaLyricShort(s string) (ok bool, out string) {
+	m := MetaLyric(s)
+	verifLemmaVlq(m, 2, uint32(len(s)))
+	verifLemmaLen(len(s))
+	ok = m.GetMetaLyric(&out)
+	return
+}
+
+//@ func verifInverseMetaLyricShort
+//@ requires len(s) < 128
+//@ ensures [P:C15] ok
+//@ ensures [P:C15] len(out) == len(s)
+//@ ensures [P:C15] forall i int :: 0 <= i && i < len(s) ==> out[i] == s[i]
+
+// verifInverseMetaLyricLong: GetMetaLyric(MetaLyric(s)) == s  (len(s) >= 128 && len(s) < 16384)
+func verifInverseMetaLyricLong(s string) (ok bool, out string) {
+	m := MetaLyric(s)
+	verifLemmaVlq(m, 2, uint32(len(s)))
+	verifLemmaLen(len(s))
+	ok = m.GetMetaLyric(&out)
+	return
+}
+
+//@ func verifInverseMetaLyricLong
+//@ requires len(s) >= 128 && len(s) < 16384
+//@ ensures [P:C15] ok
+//@ ensures [P:C15] len(out) == len(s)
+//@ ensures [P:C15] forall i int :: 0 <= i && i < len(s) ==> out[i] == s[i]
+
+// verifInverseMetaCopyrightShort: GetMetaCopyright(MetaCopyright(s)) == s  (len(s) < 128)
+func verifInverseMetaCopyrightShort(s string) (ok bool, out string) {
+	m := MetaCopyright(s)
+	verifLemmaVlq(m, 2, uint32(len(s)))
+	verifLemmaLen(len(s))
+	ok = m.GetMetaCopyright(&out)
+	return
+}
+
+//@ func verifInverseMetaCopyrightShort
+//@ requires len(s) < 128
+//@ ensures [P:C15] ok
+//@ ensures [P:C15] len(out) == len(s)
+//@ ensures [P:C15] forall i int :: 0 <= i && i < len(s) ==> out[i] == s[i]
+
+// verifInverseMetaCopyrightLong: GetMetaCopyright(MetaCopyright(s)) == s  (len(s) >= 128 && len(s) < 16384)
+func verifInverseMetaCopyrightLong(s string) (ok bool, out string) {
+	m := MetaCopyright(s)
+	verifLemmaVlq(m, 2, uint32(len(s)))
+	verifLemmaLen(len(s))
+	ok = m.GetMetaCopyright(&out)
+	return
+}
+
+//@ func verifInverseMetaCopyrightLong
+//@ requires len(s) >= 128 && len(s) < 16384
+//@ ensures [P:C15] ok
+//@ ensures [P:C15] len(out) == len(s)
+//@ ensures [P:C15] forall i int :: 0 <= i && i < len(s) ==> out[i] == s[i]
+
+// verifInverseMetaCuepointShort: GetMetaCuepoint(MetaCuepoint(s)) == s  (len(s) < 128)
+func verifInverseMetaCuepointShort(s string) (ok bool, out string) {
+	m := MetaCuepoint(s)
+	verifLemmaVlq(m, 2, uint32(len(s)))
+	verifLemmaLen(len(s))
+	ok = m.GetMetaCuepoint(&out)
+	return
+}
+
+//@ func verifInverseMetaCuepointShort
+//@ requires len(s) < 128
+//@ ensures [P:C15] ok
+//@ ensures [P:C15] len(out) == len(s)
+//@ ensures [P:C15] forall i int :: 0 <= i && i < len(s) ==> out[i] == s[i]
+
+// verifInverseMetaCuepointLong: GetMetaCuepoint(MetaCuepoint(s)) == s  (len(s) >= 128 && len(s) < 16384)
+func verifInverseMetaCuepointLong(s string) (ok bool, out string) {
+	m := MetaCuepoint(s)
+	verifLemmaVlq(m, 2, uint32(len(s)))
+	verifLemmaLen(len(s))
+	ok = m.GetMetaCuepoint(&out)
+	return
+}
+
+//@ func verifInverseMetaCuepointLong
+//@ requires len(s) >= 128 && len(s) < 16384
+//@ ensures [P:C15] ok
+//@ ensures [P:C15] len(out) == len(s)
+//@ ensures [P:C15] forall i int :: 0 <= i && i < len(s) ==> out[i] == s[i]
+
+// verifInverseMetaDeviceShort: GetMetaDevice(MetaDevice(s)) == s  (len(s) < 128)
+func verifInverseMetaDeviceShort(s string) (ok bool, out string) {
+	m := MetaDevice(s)
+	verifLemmaVlq(m, 2, uint32(len(s)))
+	verifLemmaLen(len(s))
+	ok = m.GetMetaDevice(&out)
+	return
+}
+
+//@ func verifInverseMetaDeviceShort
+//@ requires len(s) < 128
+//@ ensures [P:C15] ok
+//@ ensures [P:C15] len(out) == len(s)
+//@ ensures [P:C15] forall i int :: 0 <= i && i < len(s) ==> out[i] == s[i]
+
+// verifInverseMetaDeviceLong: GetMetaDevice(MetaDevice(s)) == s  (len(s) >= 128 && len(s) < 16384)
+func verifInverseMetaDeviceLong(s string) (ok bool, out string) {
+	m := MetaDevice(s)
+	verifLemmaVlq(m, 2, uint32(len(s)))
+	verifLemmaLen(len(s))
+	ok = m.GetMetaDevice(&out)
+	return
+}
+
+//@ func verifInverseMetaDeviceLong
+//@ requires len(s) >= 128 && len(s) < 16384
+//@ ensures [P:C15] ok
+//@ ensures [P:C15] len(out) == len(s)
+//@ ensures [P:C15] forall i int :: 0 <= i && i < len(s) ==> out[i] == s[i]
+
+// verifInverseMetaInstrumentShort: GetMetaInstrument(MetaInstrument(s)) == s  (len(s) < 128)
+func verifInverseMetaInstrumentShort(s string) (ok bool, out string) {
+	m := MetaInstrument(s)
+	verifLemmaVlq(m, 2, uint32(len(s)))
+	verifLemmaLen(len(s))
+	ok = m.GetMetaInstrument(&out)
+	return
+}
+
+//@ func verifInverseMetaInstrumentShort
+//@ requires len(s) < 128
+//@ ensures [P:C15] ok
+//@ ensures [P:C15] len(out) == len(s)
+//@ ensures [P:C15] forall i int :: 0 <= i && i < len(s) ==> out[i] == s[i]
+
+// verifInverseMetaInstrumentLong: GetMetaInstrument(MetaInstrument(s)) == s  (len(s) >= 128 && len(s) < 16384)
+func verifInverseMetaInstrumentLong(s string) (ok bool, out string) {
+	m := MetaInstrument(s)
+	verifLemmaVlq(m, 2, uint32(len(s)))
+	verifLemmaLen(len(s))
+	ok = m.GetMetaInstrument(&out)
+	return
+}
+
+//@ func verifInverseMetaInstrumentLong
+//@ requires len(s) >= 128 && len(s) < 16384
+//@ ensures [P:C15] ok
+//@ ensures [P:C15] len(out) == len(s)
+//@ ensures [P:C15] forall i int :: 0 <= i && i < len(s) ==> out[i] == s[i]
+
+// verifInverseMetaMarkerShort: GetMetaMarker(MetaMarker(s)) == s  (len(s) < 128)
+func verifInverseMetaMarkerShort(s string) (ok bool, out string) {
+	m := MetaMarker(s)
+	verifLemmaVlq(m, 2, uint32(len(s)))
+	verifLemmaLen(len(s))
+	ok = m.GetMetaMarker(&out)
+	return
+}
+
+//@ func verifInverseMetaMarkerShort
+//@ requires len(s) < 128
+//@ ensures [P:C15] ok
+//@ ensures [P:C15] len(out) == len(s)
+//@ ensures [P:C15] forall i int :: 0 <= i && i < len(s) ==> out[i] == s[i]
+
+// verifInverseMetaMarkerLong: GetMetaMarker(MetaMarker(s)) == s  (len(s) >= 128 && len(s) < 16384)
+func verifInverseMetaMarkerLong(s string) (ok bool, out string) {
+	m := MetaMarker(s)
+	verifLemmaVlq(m, 2, uint32(len(s)))
+	verifLemmaLen(len(s))
+	ok = m.GetMetaMarker(&out)
+	return
+}
+
+//@ func verifInverseMetaMarkerLong
+//@ requires len(s) >= 128 && len(s) < 16384
+//@ ensures [P:C15] ok
+//@ ensures [P:C15] len(out) == len(s)
+//@ ensures [P:C15] forall i int :: 0 <= i && i < len(s) ==> out[i] == s[i]
+
+// verifInverseMetaProgramShort: GetMetaProgramName(MetaProgram(s)) == s  (len(s) < 128)
+func verifInverseMetaProgramShort(s string) (ok bool, out string) {
+	m := MetaProgram(s)
+	verifLemmaVlq(m, 2, uint32(len(s)))
+	verifLemmaLen(len(s))
+	ok = m.GetMetaProgramName(&out)
+	return
+}
+
+//@ func verifInverseMetaProgramShort
+//@ requires len(s) < 128
+//@ ensures [P:C15] ok
+//@ ensures [P:C15] len(out) == len(s)
+//@ ensures [P:C15] forall i int :: 0 <= i && i < len(s) ==> out[i] == s[i]
+
+// verifInverseMetaProgramLong: GetMetaProgramName(MetaProgram(s)) == s  (len(s) >= 128 && len(s) < 16384)
+func verifInverseMetaProgramLong(s string) (ok bool, out string) {
+	m := MetaProgram(s)
+	verifLemmaVlq(m, 2, uint32(len(s)))
+	verifLemmaLen(len(s))
+	ok = m.GetMetaProgramName(&out)
+	return
+}
+
+//@ func verifInverseMetaProgramLong
+//@ requires len(s) >= 128 && len(s) < 16384
+//@ ensures [P:C15] ok
+//@ ensures [P:C15] len(out) == len(s)
+//@ ensures [P:C15] forall i int :: 0 <= i && i < len(s) ==> out[i] == s[i]
+
+// verifInverseMetaTextShort: GetMetaText(MetaText(s)) == s  (len(s) < 128)
+func verifInverseMetaTextShort(s string) (ok bool, out string) {
+	m := MetaText(s)
+	verifLemmaVlq(m, 2, uint32(len(s)))
+	verifLemmaLen(len(s))
+	ok = m.GetMetaText(&out)
+	return
+}
+
+//@ func verifInverseMetaTextShort
+//@ requires len(s) < 128
+//@ ensures [P:C15] ok
+//@ ensures [P:C15] len(out) == len(s)
+//@ ensures [P:C15] forall i int :: 0 <= i && i < len(s) ==> out[i] == s[i]
+
+// verifInverseMetaTextLong: GetMetaText(MetaText(s)) == s  (len(s) >= 128 && len(s) < 16384)
+func verifInverseMetaTextLong(s string) (ok bool, out string) {
+	m := MetaText(s)
+	verifLemmaVlq(m, 2, uint32(len(s)))
+	verifLemmaLen(len(s))
+	ok = m.GetMetaText(&out)
+	return
+}
+
+//@ func verifInverseMetaTextLong
+//@ requires len(s) >= 128 && len(s) < 16384
+//@ ensures [P:C15] ok
+//@ ensures [P:C15] len(out) == len(s)
+//@ ensures [P:C15] forall i int :: 0 <= i && i < len(s) ==> out[i] == s[i]
+
+// verifInverseMetaTrackSequenceNameShort: GetMetaTrackName(MetaTrackSequenceName(s)) == s  (len(s) < 128)
+func verifInverseMetaTrackSequenceNameShort(s string) (ok bool, out string) {
+	m := MetaTrackSequenceName(s)
+	verifLemmaVlq(m, 2, uint32(len(s)))
+	verifLemmaLen(len(s))
+	ok = m.GetMetaTrackName(&out)
+	return
+}
+
+//@ func verifInverseMetaTrackSequenceNameShort
+//@ requires len(s) < 128
+//@ ensures [P:C15] ok
+//@ ensures [P:C15] len(out) == len(s)
+//@ ensures [P:C15] forall i int :: 0 <= i && i < len(s) ==> out[i] == s[i]
+
+// verifInverseMetaTrackSequenceNameLong: GetMetaTrackName(MetaTrackSequenceName(s)) == s  (len(s) >= 128 && len(s) < 16384)
+func verifInverseMetaTrackSequenceNameLong(s string) (ok bool, out string) {
+	m := MetaTrackSequenceName(s)
+	verifLemmaVlq(m, 2, uint32(len(s)))
+	verifLemmaLen(len(s))
+	ok = m.GetMetaTrackName(&out)
+	return
+}
+
+//@ func verifInverseMetaTrackSequenceNameLong
+//@ requires len(s) >= 128 && len(s) < 16384
+//@ ensures [P:C15] ok
+//@ ensures [P:C15] len(out) == len(s)
+//@ ensures [P:C15] forall i int :: 0 <= i && i < len(s) ==> out[i] == s[i]
+
+// ---- sequencer specific data: FF 7F vlq(len) bytes
+//@ macro seqAt(m, c, bt) = (vlqEnds5(arr(m), 2, c) && len(m) == 2 + c + int(vlqDec(arr(m), 2, c))) ==> (len(*bt) == int(vlqDec(arr(m), 2, c)) && forall i int :: 0 <= i && i < len(*bt) ==> (*bt)[i] == m[2 + c + i])
+
+//@ func (Message).GetMetaSeqData
+//@ modifies *bt
+//@ ensures [P:C08] result ==> smfTypeOf(len(m), m[0], m[1]) == MetaSeqDataMsg
+//@ ensures [P:C15] result && bt != nil ==> seqAt(m, 1, bt)
+//@ ensures [P:C15] result && bt != nil ==> seqAt(m, 2, bt)
